@@ -137,6 +137,18 @@ def applyAt (w : String) (tbl : Table) (ns : String) (target : Path) : Path → 
     (applyAt w tbl ns target (p ++ [l]) h).bind fun h' =>
       (applyAt w tbl ns target p t).bind fun t' => .ok (.cons l h' t')
 
+/-- An application whose panic the caller recovers from (`defer recover()`): the tree afterwards.
+    A failed application yields no tree at all in the model, so the recovered caller keeps what it
+    had. Abstraction (recorded): the Go pass links references in map order until it reaches the
+    missing ID, so references it visited earlier ARE re-linked; that is invisible when the table has
+    none of the IDs the tree refers to, or is a sub-table of the table those references are already
+    bound to - the only failing applications the correspondence check generates. What must hold in
+    every case is that the reference whose ID is missing keeps its previous state. -/
+def recovered (r : Out LTy) (t : LTy) : LTy :=
+  match r with
+  | .ok t' => t'
+  | _ => t
+
 /-- `ValidateReferences() == nil` -/
 def validateRefs : LTy → Bool
   | .leaf _ => true
